@@ -11,7 +11,10 @@ pub mod c08;
 pub mod c09;
 pub mod c10;
 pub mod c11;
+pub mod c12;
 pub mod c13;
+pub mod c14;
+pub mod c15;
 pub mod c16;
 pub mod c18;
 pub mod c19;
@@ -34,7 +37,10 @@ pub fn run(engine: &str, ctx: &Ctx) -> Option<Report> {
         "c11" => c11::run(ctx, &mut rep),
         "probe2" => probe2::run(ctx, &mut rep),
         "probe" => probe::run(ctx, &mut rep),
+        "c12" => c12::run(ctx, &mut rep),
         "c13" => c13::run(ctx, &mut rep),
+        "c14" => c14::run(ctx, &mut rep),
+        "c15" => c15::run(ctx, &mut rep),
         "c16" => c16::run(ctx, &mut rep),
         "c18" => c18::run(ctx, &mut rep),
         "c19" => c19::run(ctx, &mut rep),
